@@ -161,6 +161,32 @@ Definition pdhg_step (A : V -> W) (At : W -> V) (proxF : T -> V -> V) (proxGc : 
   let x' := proxF tau (addV (pd_x s) (scalV (- tau) (At y'))) in
   {| pd_x := x'; pd_xr := addV (scalV (none_ + theta) x') (scalV (- theta) (pd_x s)); pd_y := y' |}.
 
+(* pdhg with acceleration (gamma_primal or gamma_dual): after the two proximal steps
+     theta = 1/sqrt(1 + 2 gamma tau); tau *= theta; sigma /= theta          (primal)
+     theta = 1/sqrt(1 + 2 gamma sigma); tau /= theta; sigma *= theta        (dual)
+   and x_relax uses the NEW theta.  The roots are supplied ([rts], checked by pdhg_roots_ok). *)
+Fixpoint pdhg_acc_run (A : V -> W) (At : W -> V) (proxF : T -> V -> V) (proxGc : T -> W -> W)
+    (primal : bool) (rts : list T) (tau sigma : T) (s : pdst) : list pdst :=
+  match rts with
+  | [] => []
+  | r :: rts' =>
+      let theta := none_ / r in
+      let s' := pdhg_step A At proxF proxGc tau sigma theta s in
+      let tau' := if primal then tau * theta else tau / theta in
+      let sigma' := if primal then sigma / theta else sigma * theta in
+      s' :: pdhg_acc_run A At proxF proxGc primal rts' tau' sigma' s'
+  end.
+Fixpoint pdhg_roots_ok (tol : T) (primal : bool) (gamma : T) (rts : list T) (tau sigma : T) : bool :=
+  match rts with
+  | [] => true
+  | r :: rts' =>
+      let v := none_ + of_Z 2 * gamma * (if primal then tau else sigma) in
+      let theta := none_ / r in
+      (nzero <? r) && (nabs (r * r - v) <=? tol * v)
+      && pdhg_roots_ok tol primal gamma rts'
+           (if primal then tau * theta else tau / theta) (if primal then sigma / theta else sigma * theta)
+  end.
+
 (* admm_linearized:
      x = prox_{tau f}(x - tau/sigma L^*(L x + u - z)); z = prox_{sigma g}(L x + u); u = u + L x - z *)
 Record admst := { ad_x : V; ad_z : W; ad_u : W }.
@@ -207,7 +233,9 @@ Fixpoint apg_roots_ok (tol : T) (rts : list T) (t : T) : bool :=
 
 (* ------------------------------------------------------------------ *)
 (* blocks (L_i, L_i^*, prox_{sigma g_i^*}, sigma_i) of the primal-dual splittings *)
-Record blk := { bA : V -> W; bAt : W -> V; bproxGc : T -> W -> W; bsigma : T }.
+Record blk := { bA : V -> W; bAt : W -> V; bproxGc : T -> W -> W; bsigma : T;
+                 bproxLc : option (T -> W -> W);    (* prox of sigma l_i^* (douglas_rachford_pd, `l`) *)
+                 bgradLc : option (W -> W) }.       (* gradient of l_i^*    (forward_backward_pd, `l`) *)
 
 Fixpoint sum_adj (bs : list blk) (vs : list W) (acc : V) : V :=
   match bs, vs with
@@ -227,7 +255,9 @@ Definition fb_step (alias : bool) (proxF : T -> V -> V) (gradH : V -> V) (bs : l
   let tmp1 := sum_adj bs vs (gradH x) in
   let x' := proxF tau (addV x (scalV (- tau) tmp1)) in
   let y := addV (scalV two x') (scalV (- none_) (if alias then x' else x)) in
-  (x', map2 (fun b v => bproxGc b (bsigma b) (addW v (scalW (bsigma b) (bA b y)))) bs vs).
+  (x', map2 (fun b v =>
+              let t := match bgradLc b with Some G => subW (bA b y) (G v) | None => bA b y end in
+              bproxGc b (bsigma b) (addW v (scalW (bsigma b) t))) bs vs).
 
 (* douglas_rachford_pd (l = None), one full (non-final) iteration.
    Returns (p1, next state); the callback sees p1. *)
@@ -250,7 +280,8 @@ Definition dr_step (proxF : T -> V -> V) (bs : list blk) (tau lam : T) (s : V * 
   let z1 := addV w1 (scalV (- (tau / two)) (sum_adj0 bs w2 x)) in
   let x2 := addV x1 (scalV lam z1) in
   let q1 := addV (scalV two z1) (scalV (- none_) w1) in
-  let z2 := map2 (fun b w => addW w (scalW (bsigma b / two) (bA b q1))) bs w2 in
+  let z2 := map2 (fun b w => let z := addW w (scalW (bsigma b / two) (bA b q1)) in
+                             match bproxLc b with Some P => P (bsigma b) z | None => z end) bs w2 in
   let vs' := map2 (fun vz p => addW vz (scalW (- lam) p))
                   (map2 (fun v z => addW v (scalW lam z)) vs z2) p2 in
   (x2, vs').
